@@ -690,7 +690,8 @@ class Parser(ABC):
                 if from_ and import_ and alias != name:
                     data_type.alias = alias if data_type.reference.short_name == import_ else f"{alias}.{name}"
 
-                if init:
+                if init and not f"{data_type.module_name}.".startswith(f"{model.module_name}."):
+                    # a package file addresses its own sub-modules with a single dot
                     from_ = "." + from_
                 imports.append(
                     Import(
